@@ -667,6 +667,9 @@ func c05GenWhere(rng *rand.Rand, tmpl map[string]interface{}) *c05PWhere {
 	switch rng.Intn(3) {
 	case 0:
 		w.lit = rng.Intn(9) - 3
+		if rng.Intn(6) == 0 { // around ±2^53, where float64 stops telling neighbouring integers apart
+			w.lit = (1<<53 + rng.Intn(4) - 1) * (1 - 2*rng.Intn(2))
+		}
 	case 1:
 		w.lit = float64(rng.Intn(17)-4) / 4
 	default:
@@ -679,6 +682,9 @@ func c05GenWhere(rng *rand.Rand, tmpl map[string]interface{}) *c05PWhere {
 func c05WhereValue(rng *rand.Rand, w *c05PWhere) interface{} {
 	switch l := w.lit.(type) {
 	case int:
+		if l > 1<<52 || l < -(1<<52) { // integers only: the neighbours are not float64 values
+			return l + rng.Intn(5) - 2
+		}
 		if rng.Intn(3) == 0 {
 			return float64(l) + float64(rng.Intn(5)-2)/4
 		}
